@@ -24,7 +24,7 @@ namespace {
 struct Cover {
     uint64_t trees = 0, nodes = 0, dirs = 0, files = 0, emptyDirs = 0, queries = 0, missingProbes = 0, relativeQueries = 0, trailingSepQueries = 0;
     uint64_t deepChains = 0, longestCwd = 0, bigDirs = 0, visitorReuses = 0;
-    uint64_t strings = 0, identities = 0, absoluteJoins = 0, arbitraryStrings = 0, visitors = 0, nestedVisitors = 0, bytesInFiles = 0, oddNames = 0, nontrivialCases = 0, randomSegments = 0, descriptorChecks = 0;
+    uint64_t strings = 0, identities = 0, absoluteJoins = 0, arbitraryStrings = 0, visitors = 0, nestedVisitors = 0, bytesInFiles = 0, oddNames = 0, nontrivialCases = 0, randomSegments = 0, descriptorChecks = 0, selfVisits = 0, manyEntryDirs = 0;
     std::vector<uint64_t> fps;
     std::vector<std::string> samples;
 } C;
@@ -273,6 +273,48 @@ void deepCase(uint64_t c, rt::Rng rng, const std::string &base) {
         if (!deep.exists() || !deep.isDirectory() || deep.size() != fileSize) fail("size-wrong", "long-path", "size()/exists() wrong through a " + std::to_string(p.size()) + "-byte path");
         else if (Path(rootPath).size() != fileSize) fail("size-wrong", "long-path", "size() of the chain root does not reach the leaf file");
     }
+    // a visitor whose target is the directory the process is already in (spelled absolutely), with the working directory
+    // changed inside its scope (directly, or by an inner visitor): it still restores the directory it started from
+    if (!gCaseFailed && rng.chance(500)) {
+        std::string here = cwd();
+        {
+            DirectoryVisitor self{Path(here)};
+            if (cwd() != here) fail("visitor-did-not-enter", "visitor-self", "a visitor of the current directory moved the process to " + esc(cwd()));
+            if (rng.chance(500)) fs::current_path(here + "/" + names[0]);
+            else { DirectoryVisitor inner{Path(names[0])}; if (cwd() != here + "/" + names[0]) fail("visitor-did-not-enter", "visitor-self", "inner visitor did not enter"); }
+            if (rng.chance(500)) fs::current_path(base);
+        }
+        if (!gCaseFailed && cwd() != here) fail("visitor-not-restored", "visitor-self", "a visitor of the directory the process was already in left the process in '" + esc(cwd()) + "' instead of '" + esc(here) + "'");
+        fs::current_path(here);
+        ++C.selfVisits;
+    }
+    // a directory with more entries than one read of the directory stream returns (thousands of short names, hundreds of
+    // long ones): every entry is listed exactly once, and the size is the sum
+    if (!gCaseFailed && rng.chance(100)) {
+        std::string big = p + "/many";
+        fs::create_directories(big);
+        bool longNames = rng.chance(400);
+        int n = longNames ? (int) rng.range(250, 400) : (int) rng.range(1500, 3500);
+        std::set<std::string> want;
+        uint64_t bytes = 0;
+        for (int i = 0; i < n; ++i) {
+            std::string nm = longNames ? "entry-" + std::to_string(i) + "-" + std::string(190, (char) ('a' + i % 26)) : "e" + std::to_string(i);
+            size_t sz = i % 7 == 0 ? (size_t) (i % 50) : 0;
+            { std::ofstream o(big + "/" + nm, std::ios::binary); o << std::string(sz, 'q'); }
+            want.insert(nm);
+            bytes += sz;
+        }
+        std::multiset<std::string> got;
+        for (auto &ch : Path(big).listChildren()) got.insert(ch.toString());
+        size_t dup = 0, missing = 0, foreign = 0;
+        for (auto &g : got) { if (got.count(g) > 1) ++dup; if (!want.count(g)) ++foreign; }
+        for (auto &w : want) if (!got.count(w)) ++missing;
+        if (got.size() != want.size() || dup || missing || foreign)
+            fail("listChildren-wrong", "many-entries", "listChildren() of a directory with " + std::to_string(n) + " entries returned " + std::to_string(got.size()) + " names: " + std::to_string(missing) + " missing, " + std::to_string(foreign) + " that are not in the directory, " + std::to_string(dup) + " duplicated");
+        else if (Path(big).size() != bytes) fail("size-wrong", "many-entries", "size() of a directory with " + std::to_string(n) + " entries is " + std::to_string(Path(big).size()) + ", its files hold " + std::to_string(bytes) + " bytes");
+        fileSize += bytes;   // (the directory lies below the chain: later sums include it)
+        ++C.manyEntryDirs;
+    }
     // now and then the leaf directory also gets sparse files whose sizes add up to more than 2^31 and 2^32 bytes
     if (!gCaseFailed && rng.chance(250)) {
         uint64_t total = fileSize;
@@ -438,7 +480,7 @@ int main(int argc, char **argv) {
     rt::dumpFingerprints(C.fps);
     rt::finish(rt::Json().kv("engine", "h_path").kv("trees", C.trees).kv("nodes", C.nodes).kv("directories", C.dirs).kv("files", C.files)
                    .kv("emptyDirectories", C.emptyDirs).kv("nodeQueries", C.queries).kv("relativeQueries", C.relativeQueries)
-                   .kv("trailingSeparatorQueries", C.trailingSepQueries).kv("missingPathProbes", C.missingProbes).kv("oddNames", C.oddNames).kv("randomSegments", C.randomSegments).kv("descriptorChecks", C.descriptorChecks)
+                   .kv("trailingSeparatorQueries", C.trailingSepQueries).kv("missingPathProbes", C.missingProbes).kv("oddNames", C.oddNames).kv("randomSegments", C.randomSegments).kv("descriptorChecks", C.descriptorChecks).kv("visitorsOfTheCurrentDirectory", C.selfVisits).kv("directoriesWithThousandsOfEntries", C.manyEntryDirs)
                    .kv("bytesInFiles", C.bytesInFiles).kv("pathStrings", C.strings).kv("identitiesChecked", C.identities).kv("absoluteJoins", C.absoluteJoins)
                    .kv("arbitraryStrings", C.arbitraryStrings).kv("visitors", C.visitors).kv("nestedVisitors", C.nestedVisitors).kv("deepChains", C.deepChains).kv("directoriesOver2GiB", C.bigDirs).kv("visitorObjectsReused", C.visitorReuses).kv("maxCwdBytes", C.longestCwd)
                    .kv("nontrivialCases", C.nontrivialCases).raw("samples", rt::jsonArray(C.samples, false)));
